@@ -149,6 +149,7 @@ def tail_errors(out):
 
 
 _OPS = re.compile(r'^<<"VERIF_OPS", "(.*)">>$')
+_HOT = re.compile(r'^<<"VERIF_HOT", "(.*)">>$')
 
 
 def unquote_tla(s):
@@ -184,16 +185,17 @@ def tlc_walks(ctx, module, cfg, num, depth, seed, timeout=600):
     return hist
 
 
-def tlc_cover(ctx, module, cfg, timeout=1800, limit=None, seed=0):
+def tlc_cover(ctx, module, cfg, timeout=1800, limit=None, seed=0, workers='8'):
     """Exhaustive BFS of a generation module whose ACTION_CONSTRAINT prints the
     history of every generated transition (transition cover). Returns the
     histories (optionally a deterministic sample of `limit`) and the stats."""
     t = time.time()
-    rc, out = tlc(ctx, module, cfg, workers='1', timeout=timeout)
+    rc, out = tlc(ctx, module, cfg, workers=workers, timeout=timeout)
     m = _STATS.findall(out)
     if 'Model checking completed. No error has been found.' not in out or not m:
         raise Infra('cover generation %s/%s failed:\n%s' % (module, cfg, tail_errors(out)))
     hist = []
+    hot = []
     seen = set()
     for ln in out.splitlines():
         mm = _OPS.match(ln)
@@ -202,11 +204,25 @@ def tlc_cover(ctx, module, cfg, timeout=1800, limit=None, seed=0):
             if s not in seen:
                 seen.add(s)
                 hist.append(json.loads(s))
-    total = len(hist)
+            continue
+        mm = _HOT.match(ln)
+        if mm:
+            s = unquote_tla(mm.group(1))
+            if s not in seen:
+                seen.add(s)
+                hot.append(json.loads(s))
+    total = len(hist) + len(hot)
     if limit is not None and len(hist) > limit:
         import random
         r = random.Random(seed)
         hist = r.sample(hist, limit)
+    if hot:
+        # histories the model marks as reaching a delicate state are always kept
+        if limit is not None and len(hot) > 2 * limit:
+            import random
+            hot = random.Random(seed + 1).sample(hot, 2 * limit)
+        log('  COVER %s: %d hot histories kept' % (module, len(hot)))
+        hist = hot + hist
     gen, dist = int(m[-1][0]), int(m[-1][1])
     ctx.mc_states += dist
     ctx.mc_transitions += gen
